@@ -19,7 +19,7 @@ META = {
               "repeat, address-dependent sizes) x n in 0..4 (quick: 0,1,2,3) and one symbolic n <= 4; values: |X| < 2^16; base even 0..30000; "
               "1..3 files; inserted files of 0..6 concrete bytes and <= 4 symbolic bytes",
     "outside": ["n above 4, nesting above 2, inserted files above 6 bytes (lengths are realised)"],
-    "structure": "body catalogue x count; file splits; .end / .once placements",
+    "structure": "body catalogue x count; file splits; .end / .once placements; .once-guarded include cycles",
     "stubs": ["insert_file with symbolic content: the module-level open() of pdpy11.metacommands returns the symbolic bytes"],
 }
 
@@ -262,6 +262,38 @@ def h_once(params, vals, ctx):
     return same(o1, o2) and len(o3.code) == 4 * k
 
 
+def h_once_cycle(params, vals, ctx):
+    """Headers guarded by '.once' that include each other (or themselves): each contributes exactly once, in inclusion order."""
+    b, x = vals["B"], vals["X"]
+    require(0 <= b <= 30000 and b % 2 == 0)
+    require(-65536 < x < 65536)
+    order = ["B", "X"]
+    xs = "^D9001" if ctx.route == "inject" else _lit(x)
+    kind = params["kind"]
+    sfx = "_" + kind[:2] + ("" if ctx.route == "inject" else f"_t{os.getpid()}")
+    if kind == "mutual":
+        write_aux_file("c16", f"cya{sfx}.mac", f'.once\nCA:: .word CA, {xs}\n.include "cyb{sfx}.mac"\n.word 3\n')
+        write_aux_file("c16", f"cyb{sfx}.mac", f'.once\n.include "cya{sfx}.mac"\nCB: .word CB - CA\n')
+        ref = f"CA:: .word CA, {xs}\nCB: .word CB - CA\n.word 3\n"
+    elif kind == "self":
+        write_aux_file("c16", f"cya{sfx}.mac", f'.once\nCA:: .word CA, {xs}\n.include "cya{sfx}.mac"\n.word 3\n')
+        ref = f"CA:: .word CA, {xs}\n.word 3\n"
+    else:  # the second inclusion comes from the main file, after the cycle
+        write_aux_file("c16", f"cya{sfx}.mac", f'.once\nCA:: .word CA, {xs}\n.include "cyb{sfx}.mac"\n')
+        write_aux_file("c16", f"cyb{sfx}.mac", f'.include "cya{sfx}.mac"\n.word 5\n')
+        ref = f"CA:: .word CA, {xs}\n.word 5\n.word 5\n"
+    src = os.path.join(AUX, "main_cycle.mac")
+    tail = f'.include "cyb{sfx}.mac"\n' if kind == "re-entered" else ""
+    o1 = assemble([(src, f'.link {{B}}\n.word 1\n.include "cya{sfx}.mac"\n' + tail + ".word 2\n")], vals, route=ctx.route, order=order)
+    o2 = assemble([(src, ".link {B}\n.word 1\n" + ref + ".word 2\n")], vals, route=ctx.route, order=order)
+    ctx.observe_outcome(o1)
+    ctx.observe_outcome(o2)
+    ctx.reach(o1.status == "ok" and o2.status == "ok")
+    if o1.status != "ok" or o2.status != "ok" or o1.errors:
+        return False
+    return same(o1, o2)
+
+
 def h_once_linked(params, vals, ctx):
     """A '.once' file that is linked at top level and also included contributes only once."""
     b, x = vals["B"], vals["X"]
@@ -381,6 +413,8 @@ def obligations(tier, seed):
     obs.append(Ob(oid="insert/symbolic", harness=P + "h_insert_symbolic", params={}, vars={"B": "int", "DATA": "bytes"}, timeout=900))
     for kind in ("single", "first-of-two", "bare-end", "included"):
         obs.append(Ob(oid=f"end/{kind}", harness=P + "h_end", params={"kind": kind}, vars={"B": "int", "X": "int"}, timeout=300))
+    for kind in ("mutual", "self", "re-entered"):
+        obs.append(Ob(oid=f"once-cycle/{kind}", harness=P + "h_once_cycle", params={"kind": kind}, vars={"B": "int", "X": "int"}, timeout=300))
     for kind in ("linked-then-included", "linked-twice", "included-then-linked"):
         obs.append(Ob(oid=f"once-linked/{kind}", harness=P + "h_once_linked", params={"kind": kind}, vars={"B": "int", "X": "int"}, timeout=300))
     for k in (1, 2, 3):
